@@ -21,10 +21,15 @@ def J(harness, runs, crate="sim", **kw):
 
 
 PLAN = {
-    "C01": {"quick": [J("udp_store", 100000)], "thorough": [J("udp_store", 3000000)]},
-    "C02": {"quick": [J("udp_store", 40000)], "thorough": [J("udp_store", 1000000)]},
-    "C10": {"quick": [J("udp_store", 100000)], "thorough": [J("udp_store", 1000000)]},
-    "C20": {"quick": [J("udp_store", 60000)], "thorough": [J("udp_store", 1000000)]},
+    "C01": {"quick": [J("udp_store", 40000)], "thorough": [J("udp_store", 3000000)]},
+    "C02": {"quick": [J("udp_store", 12000), J("http_store", 30000), J("ws_store", 60000)],
+            "thorough": [J("udp_store", 500000), J("http_store", 1500000), J("ws_store", 2000000)]},
+    "C07": {"quick": [J("http_store", 60000)], "thorough": [J("http_store", 3000000)]},
+    "C08": {"quick": [J("ws_store", 150000)], "thorough": [J("ws_store", 3000000)]},
+    "C09": {"quick": [J("ws_store", 150000)], "thorough": [J("ws_store", 3000000)]},
+    "C10": {"quick": [J("udp_store", 25000), J("http_store", 40000), J("ws_store", 80000)],
+            "thorough": [J("udp_store", 1000000), J("http_store", 1000000), J("ws_store", 1000000)]},
+    "C20": {"quick": [J("udp_store", 30000)], "thorough": [J("udp_store", 1000000)]},
 }
 
 _STORE_RULE = ("one run = one generated history (announce / scrape / clean / advance-clock operations, config knobs and RNG seed "
@@ -34,12 +39,27 @@ _STORE_RULE = ("one run = one generated history (announce / scrape / clean / adv
                "sequence of (operation kind, event, was-present, seeder, swarm-size class before/after, removed-count class, "
                "clean-at-deadline flags) - not merely distinct inputs")
 
+_WS_RULE = ("one run = one generated history of open / announce (with offers, answers) / scrape / close / clean / advance-clock over up to "
+            "40 connections on up to 3 simulated socket workers whose connection ids coincide; evaluations = storage calls whose "
+            "out-messages were judged against the WebTorrent reference model; non-trivial = at least one removal and one relayed "
+            "offer or answer; distinct = distinct behaviour signatures (operation kind, event, existed, seeder, offers forwarded, "
+            "answer expected/present, entries removed by close, foreign-owner flags)")
+
 PROPS = {
     "C01": {"level": "exploration", "rule": _STORE_RULE,
             "expect_probes": ["inline-to-heap", "heap-to-inline-by-stop", "seeder-status-flip", "clean-removed-something"],
             "assumptions": ["reference tracker of DESIGN.md section 4 is the specification", "sampling, not enumeration"]},
     "C02": {"level": "exploration", "rule": _STORE_RULE, "expect_probes": ["swarm-exceeds-limit", "numwant-nonpositive"],
             "assumptions": ["UDP/WS storage RNG is SmallRng seeded per run (offsets sampled, not enumerated)"]},
+    "C07": {"level": "exploration", "rule": _STORE_RULE,
+            "expect_probes": ["inline-to-heap", "heap-to-inline-by-stop", "scrape-repeated-hash", "scrape-longer-than-limit"],
+            "assumptions": ["reference tracker of DESIGN.md section 4 is the specification", "sampling, not enumeration"]},
+    "C08": {"level": "exploration", "rule": _WS_RULE,
+            "expect_probes": ["foreign-announce", "foreign-announce-coinciding-connection-id", "close-after-ignored-announce", "close-removed-entries"],
+            "assumptions": ["the socket worker's per-connection announced_info_hashes bookkeeping is mirrored in the STORE harness (the real one runs in WS-SYS)"]},
+    "C09": {"level": "exploration", "rule": _WS_RULE,
+            "expect_probes": ["offer-forwarded", "answer-forwarded", "answer-without-live-offer", "offer-expired-by-clean", "offer-forwarded-across-socket-workers"],
+            "assumptions": ["offer receivers are chosen by the tracker's RNG; the oracle validates the choice instead of predicting it"]},
     "C10": {"level": "exploration", "rule": _STORE_RULE,
             "expect_probes": ["clean-exactly-at-deadline", "clean-one-second-before-deadline", "expiry-in-heap-map"],
             "assumptions": ["monotonic clock without jumps", "tracker uptime below u32::MAX seconds"]},
@@ -61,6 +81,15 @@ TEXT = {
     "C02": {"engine": "sim", "design_ref": "6.C02", "technique": _SIM + " (peer-list clauses checked on every announce reply)",
             "level_text": "Seeded exploration over swarm sizes, requested counts, configured maxima, requester positions and RNG seeds; every reply is checked against the C02 clauses.",
             "level_note": "UDP and WS storage take a concrete SmallRng, so offsets are sampled via seeds rather than enumerated."},
+    "C07": {"engine": "sim", "design_ref": "6.C07", "technique": _SIM + " (refinement over generated histories, stepped clock, adversarial RNG)",
+            "level_text": "Seeded exploration: generated histories executed against the real aquatic_http storage and refined against the reference tracker, including scrape de-duplication / truncation and torrent-entry removal.",
+            "level_note": "Trusted: reference tracker, stepped clock seam, torrent-count accessor hook."},
+    "C08": {"engine": "sim", "design_ref": "6.C08", "technique": _SIM + " (WebTorrent reference model with per-connection ownership)",
+            "level_text": "Seeded exploration over histories from several connections on several simulated socket workers with coinciding connection ids; every out-message is judged against the ownership model.",
+            "level_note": "STORE tier mirrors the socket worker's cleanup bookkeeping; WS-SYS runs the real one."},
+    "C09": {"engine": "sim", "design_ref": "6.C09", "technique": _SIM + " (offer/answer protocol model)",
+            "level_text": "Seeded exploration: offers and answers (correct, duplicated, wrong peer, wrong torrent, after stop/close/expiry/ageing) judged against the offer-expectation model.",
+            "level_note": "Receivers are validated, not predicted (tracker RNG)."},
     "C10": {"engine": "sim", "design_ref": "6.C10", "technique": _SIM + " (simulated clock; cleans placed at deadline-1/0/+1)",
             "level_text": "Seeded exploration with the real deadline computation under a simulated clock; cleaning passes are placed one second before, at and after stored deadlines.",
             "level_note": "Monotonic clock; uptime below u32::MAX seconds."},
